@@ -97,6 +97,7 @@ RoundTrip ==
        /\ Len(x) = OutLen(ts)
        /\ IF F.ext /\ OutLen(ts) = 0 THEN r.st = "open" /\ r.why = "ext"
           ELSE r.st = "done" /\ r.out = x /\ r.declared = Len(x) /\ r.pos = Len(Encode(F, ts)) + 1
+       /\ r = RunFrom(F, Encode(F, ts), Dec0(0))      \* bounded iteration = recursive definition
        \* the wrapped form decodes from offset 4
        /\ Decode(F, Wrap(1, 2, 3, Encode(F, ts)), 4).out = r.out
 
@@ -105,6 +106,7 @@ DecInv ==
   ph = "dec" =>
     LET F == FOf(fmt) x == ExpandSlow(ts) IN
     /\ d.pos <= Len(s) + 1
+    /\ d.st = "hdr" => Decode(FOf(fmt), s, 0) = RunFrom(FOf(fmt), s, d)
     /\ Len(d.out) <= d.declared \/ d.st = "hdr"
     /\ d.bits \in 0..8
     /\ var \in {"exact", "cut", "trail", "declplus", "declminus"} => IsPrefix(d.out, x)
